@@ -533,3 +533,105 @@ static inline _Bool reset_inv(const Node *c, const Node *W)      /* nodes the cu
                                           : (self->currentCounter == 1 && (g_b0 ==> gW->counter == 1))) \
   __CPROVER_ensures(LIVE(gW) == g_b0 && i_cnt(self, gW))      /* removed stay removed, live stay live, and 1 <= counter <= currentCounter again */
 #endif
+
+/* ================================================================== C10 / C08: construction, copy, move, swap, destruction
+ * Object storage may have held arbitrary bytes before construction: the constructor obligations start from a
+ * completely unconstrained *self (is_fresh only). */
+#define CONTRACT_CL_ctor \
+  __CPROVER_requires(__CPROVER_is_fresh(self, sizeof(CL))) \
+  __CPROVER_assigns(self->head, self->tail, self->mutex.depth, self->currentCounter) \
+  __CPROVER_ensures(self->head == NULL && self->tail == NULL && UNLOCKED(self) && self->currentCounter == 0)
+
+/* swap: exchanges head, tail and the generation counter (which travels with the nodes); swap with itself changes nothing */
+#define CONTRACT_CL_swap \
+  __CPROVER_requires(__CPROVER_is_fresh(self, sizeof(CL)) && (PEQ(other, self) || __CPROVER_is_fresh(other, sizeof(CL)))) \
+  __CPROVER_assigns(self->head, self->tail, self->currentCounter, other->head, other->tail, other->currentCounter) \
+  __CPROVER_ensures(self->head == __CPROVER_old(other->head) && self->tail == __CPROVER_old(other->tail) && self->currentCounter == __CPROVER_old(other->currentCounter)) \
+  __CPROVER_ensures(other->head == __CPROVER_old(self->head) && other->tail == __CPROVER_old(self->tail) && other->currentCounter == __CPROVER_old(self->currentCounter))
+
+/* move construction: the new list takes the source's nodes and counter, the source is left empty and valid */
+#define CONTRACT_CL_ctor_move \
+  __CPROVER_requires(__CPROVER_is_fresh(self, sizeof(CL)) && __CPROVER_is_fresh(other, sizeof(CL))) \
+  __CPROVER_assigns(self->head, self->tail, self->mutex.depth, self->currentCounter, other->head, other->tail, other->currentCounter) \
+  __CPROVER_ensures(self->head == __CPROVER_old(other->head) && self->tail == __CPROVER_old(other->tail) && self->currentCounter == __CPROVER_old(other->currentCounter) && UNLOCKED(self)) \
+  __CPROVER_ensures(other->head == NULL && other->tail == NULL && other->currentCounter == 0)
+
+/* doFreeAllNodes (callbacklist.h:411), split loop: every node of the chain gets both links cleared, so no
+ * reference cycle keeps the nodes (and their callbacks) alive once the list lets go of them (C08) */
+#define FA_C (*node)
+#define CONTRACT_CL_doFreeAllNodes__loop0 \
+  __CPROVER_requires(__CPROVER_is_fresh(self, sizeof(CL)) && __CPROVER_is_fresh(node, sizeof(Node *))) \
+  __CPROVER_requires(FA_C == NULL || (FRESH_NODE(FA_C) && (FA_C->next == NULL || FRESH_NODE(FA_C->next)))) \
+  __CPROVER_assigns(*node) \
+  __CPROVER_assigns(FA_C != NULL: FA_C->previous, FA_C->next) \
+  __CPROVER_ensures(__CPROVER_return_value == 0 || __CPROVER_return_value == 3) \
+  __CPROVER_ensures(__CPROVER_return_value == 3 ==> FA_C == NULL) \
+  __CPROVER_ensures(__CPROVER_return_value == 0 ==> (__CPROVER_old(*node)->next == NULL && __CPROVER_old(*node)->previous == NULL && FA_C == __CPROVER_old((*node)->next)))
+/* loop summary for a witness gW of the chain (loop rule): its links are cleared */
+#define CONTRACT_CL_doFreeAllNodes__loop0_summary \
+  __CPROVER_assigns(*node, gW->next, gW->previous) \
+  __CPROVER_ensures(__CPROVER_return_value == 0 && *node == NULL && gW->next == NULL && gW->previous == NULL)
+#define CONTRACT_CL_doFreeAllNodes__skel \
+  __CPROVER_requires(__CPROVER_is_fresh(self, sizeof(CL)) && FRESH_NODE(gW)) \
+  __CPROVER_assigns(self->head, gW->next, gW->previous) \
+  __CPROVER_ensures(self->head == NULL && self->tail == __CPROVER_old(self->tail) && self->currentCounter == __CPROVER_old(self->currentCounter)) \
+  __CPROVER_ensures(gW->next == NULL && gW->previous == NULL)
+/* the function as its callers see it (contract of the real function = contract of the skeleton, by the loop rule) */
+#define CONTRACT_CL_doFreeAllNodes \
+  __CPROVER_requires(FRESH_NODE(gW)) \
+  __CPROVER_assigns(self->head, gW->next, gW->previous) \
+  __CPROVER_ensures(self->head == NULL && self->tail == __CPROVER_old(self->tail) && self->currentCounter == __CPROVER_old(self->currentCounter)) \
+  __CPROVER_ensures(gW->next == NULL && gW->previous == NULL)
+
+/* move assignment: own nodes are released first (links cleared), then the source's nodes and counter are taken over;
+ * the source is left with no nodes; self-assignment changes nothing */
+#define CONTRACT_CL_assign_move \
+  __CPROVER_requires(__CPROVER_is_fresh(self, sizeof(CL)) && (PEQ(other, self) || __CPROVER_is_fresh(other, sizeof(CL))) && FRESH_NODE(gW)) \
+  __CPROVER_requires(g_b0 == (self == other)) \
+  __CPROVER_assigns(self->head, self->tail, self->currentCounter, other->head, other->tail, gW->next, gW->previous) \
+  __CPROVER_ensures(__CPROVER_return_value == self) \
+  __CPROVER_ensures(g_b0 ? (self->head == __CPROVER_old(self->head) && self->tail == __CPROVER_old(self->tail) && self->currentCounter == __CPROVER_old(self->currentCounter) && gW->next == __CPROVER_old(gW->next) && gW->previous == __CPROVER_old(gW->previous)) \
+                         : (self->head == __CPROVER_old(other->head) && self->tail == __CPROVER_old(other->tail) && self->currentCounter == __CPROVER_old(other->currentCounter) && \
+                            other->head == NULL && other->tail == NULL && gW->next == NULL && gW->previous == NULL))
+
+/* destructor: releases every node (links cleared) and both list references */
+#define CONTRACT_CL_dtor \
+  __CPROVER_requires(__CPROVER_is_fresh(self, sizeof(CL)) && FRESH_NODE(gW)) \
+  __CPROVER_assigns(self->head, self->tail, gW->next, gW->previous) \
+  __CPROVER_ensures(self->head == NULL && self->tail == NULL && gW->next == NULL && gW->previous == NULL)
+
+/* cloneFrom (callbacklist.h:441), split loop.  One iteration copies the source node F = *fromNode into a NEW node
+ * (is_fresh in the postcondition: shared with nothing -- independence), same callback, the one generation `counter`,
+ * linked behind the previous clone D = *node; the source is not written.  prophecy: the clone gets the source node's
+ * rank, so the clone chain is ordered exactly like the source chain. */
+#define CF_F (*fromNode)
+#define CF_D (*node)
+#define CONTRACT_CL_cloneFrom__loop0 \
+  __CPROVER_requires(__CPROVER_is_fresh(self, sizeof(CL)) && __CPROVER_is_fresh(fromHead, sizeof(Node *)) && __CPROVER_is_fresh(fromNode, sizeof(Node *)) && \
+                     __CPROVER_is_fresh(node, sizeof(Node *)) && __CPROVER_is_fresh(counter, sizeof(unsigned int))) \
+  __CPROVER_requires(CF_F == NULL || (FRESH_NODE(CF_F) && NULL_OR_FRESH(CF_F->next))) \
+  __CPROVER_requires(NULL_OR_FRESH(CF_D)) \
+  __CPROVER_requires(CLOCK_OK && *counter != 0 && (CF_F != NULL ==> (LIVE(CF_F) && g_fwd(CF_F) && g_next_rank == CF_F->rank && CF_F->rank > 0))) \
+  __CPROVER_requires(CF_D != NULL ? (CF_D->next == NULL && LIVE(CF_D) && CF_D->counter == *counter && self->head != NULL && (CF_F != NULL ==> CF_D->rank < CF_F->rank)) : self->head == NULL) \
+  __CPROVER_requires(g_u0 == (unsigned long long)(CF_D != NULL)) \
+  __CPROVER_assigns(*node, *fromNode, g_clock) \
+  __CPROVER_assigns(CF_F != NULL && CF_D == NULL: self->head) \
+  __CPROVER_assigns(CF_F != NULL && CF_D != NULL: CF_D->next) \
+  __CPROVER_ensures(__CPROVER_return_value == 0 || __CPROVER_return_value == 3) \
+  __CPROVER_ensures(__CPROVER_return_value == 3 ==> (CF_F == NULL && CF_D == __CPROVER_old(*node))) \
+  __CPROVER_ensures(__CPROVER_return_value == 0 ==> (FRESH_NODE(CF_D) && CF_D->next == NULL && LIVE(CF_D) && CF_D->counter == *counter)) \
+  __CPROVER_ensures(__CPROVER_return_value == 0 ==> (CF_D->callback.id == __CPROVER_old(*fromNode)->callback.id && CF_D->rank == __CPROVER_old(*fromNode)->rank)) \
+  __CPROVER_ensures(__CPROVER_return_value == 0 ==> (CF_D->previous == __CPROVER_old(*node) && CF_F == __CPROVER_old((*fromNode)->next))) \
+  __CPROVER_ensures(__CPROVER_return_value == 0 ==> (g_u0 ? (CF_D->previous->next == CF_D && CF_D->previous->rank < CF_D->rank && self->head == __CPROVER_old(self->head)) : self->head == CF_D)) \
+  __CPROVER_ensures(__CPROVER_return_value == 0 ==> (self->head != NULL && (CF_F != NULL ==> CF_D->rank < CF_F->rank)))
+#define CONTRACT_CL_cloneFrom__loop0_pre \
+  __CPROVER_requires(__CPROVER_is_fresh(self, sizeof(CL)) && __CPROVER_is_fresh(fromHead, sizeof(Node *)) && __CPROVER_is_fresh(fromNode, sizeof(Node *)) && \
+                     __CPROVER_is_fresh(node, sizeof(Node *)) && __CPROVER_is_fresh(counter, sizeof(unsigned int))) \
+  __CPROVER_requires(UNLOCKED(self) && NOWRAP(self) && self->head == NULL) \
+  __CPROVER_assigns(*fromNode, *node, *counter, self->currentCounter) \
+  __CPROVER_ensures(__CPROVER_return_value == 0 && *fromNode == *fromHead && *node == NULL && *counter == self->currentCounter && *counter != 0 && self->head == NULL)
+#define CONTRACT_CL_cloneFrom__loop0_epi \
+  __CPROVER_requires(__CPROVER_is_fresh(self, sizeof(CL)) && __CPROVER_is_fresh(fromHead, sizeof(Node *)) && __CPROVER_is_fresh(fromNode, sizeof(Node *)) && \
+                     __CPROVER_is_fresh(node, sizeof(Node *)) && __CPROVER_is_fresh(counter, sizeof(unsigned int))) \
+  __CPROVER_assigns(self->tail) \
+  __CPROVER_ensures(__CPROVER_return_value == 0 && self->tail == *node)
